@@ -350,6 +350,18 @@ def parse_mem_header(text):
     return out
 
 
+def parse_mem_regions_string(text):
+    """The `MEM_REGIONS` string of mem.h (printed by the BIOS): {NAME: (base, size)}."""
+    m = re.search(r'#define MEM_REGIONS "(.*)"', text)
+    out = {}
+    if m:
+        for row in m.group(1).split("\\n"):
+            f = row.split()
+            if len(f) == 3:
+                out[f[0]] = (int(f[1], 16), int(f[2], 16))
+    return out
+
+
 def run_exports(b):
     """Run the real export flow: `Builder._generate_includes` / `_generate_csr_map` write csr.h, mem.h, soc.h,
     csr.json, csr.csv, csr.svd into a scratch directory exactly as a build does; the files are read back."""
@@ -369,6 +381,8 @@ def run_exports(b):
         ex.csv = parse_csv(open(os.path.join(d, "csr.csv")).read())
         ex.header_text = open(os.path.join(gen, "csr.h")).read()
         ex.mem_header = parse_mem_header(open(os.path.join(gen, "mem.h")).read())
+        ex.mem_regions_string = parse_mem_regions_string(open(os.path.join(gen, "mem.h")).read())
+        ex.regions_ld = open(os.path.join(gen, "regions.ld")).read() if os.path.exists(os.path.join(gen, "regions.ld")) else None
         ex.soc_header = open(os.path.join(gen, "soc.h")).read()
         envshim.quiet_stderr()
         try:
@@ -765,6 +779,7 @@ def bank_words(regions):
 R_CSR8 = "C14-csr8-stride"
 R_LITTLE = "C14-little-ordering-accessors"
 R_AXIL_RD = "C14-axil-wide-bus-read-side-effects"
+R_UNALIGNED = "C14-mem-image-unaligned-base"
 KNOWN_REGIONS = (R_CSR8, R_LITTLE, R_AXIL_RD)
 
 
@@ -873,6 +888,8 @@ def check_soc(cfg, seed=0, max_regs=None, max_words=None):
                 count("fields")
             ej.append("%d:%d" % (j["addr"], j["size"]))
             eh.append("%d:%d" % (ha, hs))
+            rec["lean"].append(("jsonwords %d %d" % (bw, r.size), str(j["size"])))
+            rec["lean"].append(("chunks %d %d %d" % (big, bw, r.size), " ".join(str(sc.size) for sc in r.simple)))
         real_j.append(" ".join(ej))
         real_h.append(" ".join(eh))
         if ex.svd is not None:
@@ -907,6 +924,11 @@ def check_soc(cfg, seed=0, max_regs=None, max_words=None):
             alarm("memory region %s: json %r mem.h %r csv %r, bus region (0x%x, 0x%x)" % (name, j, m, c, region.origin, region.size))
         if ("%s : ORIGIN = 0x%08x, LENGTH = 0x%08x" % (name, region.origin, region.size)) not in ex.linker:
             alarm("linker region %s" % name)
+        if ex.mem_regions_string.get(name.upper()) != (region.origin, region.size):
+            alarm("mem.h MEM_REGIONS string lists %s as %r, bus region (0x%x, 0x%x)" % (name, ex.mem_regions_string.get(name.upper()),
+                                                                                   region.origin, region.size))
+        if ex.regions_ld is not None and ("%s : ORIGIN = 0x%08x, LENGTH = 0x%08x" % (name, region.origin, region.size)) not in ex.regions_ld:
+            alarm("regions.ld written by the Builder lacks/misplaces region %s" % name)
         if ex.svd_mems is not None and ex.svd_mems.get(name.upper()) != (region.origin, region.size):
             alarm("SVD memory region %s" % name)
         count("mem_regions")
@@ -1143,6 +1165,41 @@ def check_soc(cfg, seed=0, max_regs=None, max_words=None):
             rec["lean"].append(("hwwords %d %d %d %d" % (big, bw, r.size, cur), " ".join(map(str, loads))))
         if got != cur:
             alarm("%s_read() = 0x%x, register holds 0x%x" % (r.full, got, cur), R_CSR8, *ltag)
+        # ---- every exporter's own view of this register: where a view publishes other word locations (or another word
+        #      count) than the ones driven above, software following THAT file is played too: a load at each address it
+        #      publishes must strobe word k of this register and nothing else ---------------------------------------
+        driven = ex.header.word_addrs(r.full) if has_acc else list(waddrs)
+        jv, cv = ex.json["csr_registers"][r.full], ex.csv["csr_register"][r.full]
+        views = [("csr.json", [jv["addr"] + 4 * k for k in range(jv["size"])]), ("csr.csv", [cv[0] + 4 * k for k in range(cv[1])]),
+                 ("csr.h", [ex.header.value("CSR_%s_ADDR" % r.full.upper()) + 4 * k
+                            for k in range(ex.header.value("CSR_%s_SIZE" % r.full.upper()))])]
+        sv_ = ex.svd.get(R.name.upper()) if ex.svd is not None else None
+        if sv_ is not None and len(sv_["regs"]) == sum(len(x.simple) for x in R.regs):
+            p0_ = sum(len(x.simple) for x in R.regs[:R.regs.index(r)])
+            views.append(("csr.svd", [a_ for _, a_ in sv_["regs"][p0_:p0_ + nw]]))
+        seen_views = []
+        for vname, addrs in views:
+            if addrs == driven or addrs in seen_views:
+                continue
+            seen_views.append(addrs)
+            if len(addrs) != nw:
+                alarm("%s publishes %s as %d word(s) at 0x%x; the hardware register has %d simple CSRs (%d bits on a %d-bit CSR bus): "
+                      "the register cannot be composed from the published size, and every register after it in the bank is "
+                      "published %+d bytes off" % (vname, r.full, len(addrs), addrs[0] if addrs else 0, nw, r.size, bw, 4 * (len(addrs) - nw)), R_CSR8)
+            for k, a in enumerate(addrs[:nw + 1]):
+                val, hits = do_access(a, 0)
+                if hits is None:
+                    alarm("%s publishes word %d of %s at 0x%x: a load there hangs the bus" % (vname, k, r.full, a))
+                    continue
+                got_ = set(tb.name_hits(hits))
+                want_ = {"r:" + simple_key[id(r.simple[k])]} if k < nw else set()
+                if got_ != want_:
+                    owners = sorted({word_of[id(tb.simple[k_][2])][0].full + (" word %d" % word_of[id(tb.simple[k_][2])][1])
+                                     for k_ in hits["r"] | hits["w"] if id(tb.simple[k_][2]) in word_of})
+                    alarm("%s publishes word %d of register %s at address 0x%x: a load there on the real bus strobes %s = %s, expected %s" % (
+                        vname, k, r.full, a, sorted(got_) or "nothing", owners or "no register", sorted(want_) or "nothing"),
+                        R_CSR8, R_AXIL_RD)
+                count("view_probes")
         count("reads")
         count("nontrivial", 1 if nw > 1 or r.kind == "storage" else 0)
 
@@ -1374,11 +1431,16 @@ def check_soc(cfg, seed=0, max_regs=None, max_words=None):
     #      `bus.add_slave`, and the add_ram/add_rom memories): init content at its published address, every store changes
     #      exactly the cell (and 32-bit lane) the published address denotes, every word is its own storage -------------
     full_walk = max_words is None
+    mstd_ = getattr(b, "master_std", cfg["bus"])
+    mkind = "axil" if mstd_ != "wishbone" else "wb" + getattr(b.master, "addressing", "word")
 
     def walk_window(name, kind, base, size, mem, dwm, writable, w32_init, budget):
         n32, per, depth = size // 4, dwm // 32, mem.depth
         if full_walk or n32 <= budget:
             ks = set(range(n32))
+        elif budget < 10:
+            # quick tier, memories of the big SoCs: one word of every quarter (not word 0: a shifted window shows from 1 on)
+            ks = set(sorted({1, n32 // 4 + 1, n32 // 2, 3 * n32 // 4 - 1, n32 - 1})[:budget])
         else:
             ks = {0, 1, 2, 3, 4, 5, n32 - 1, n32 - 2} | {q * n32 // 4 + d for q in (1, 2, 3) for d in (-1, 0, 1)}
             ks |= {1 << i for i in range(n32.bit_length())} | {(1 << i) - 1 for i in range(n32.bit_length() + 1)}
@@ -1431,7 +1493,8 @@ def check_soc(cfg, seed=0, max_regs=None, max_words=None):
                 diff = before[changed[0]] ^ after[changed[0]]
                 lanes = [l for l in range(per) if (diff >> (32 * l)) & M32]
                 if len(lanes) == 1:
-                    rec["lean"].append(("slavecell %s %d %d %d %d %d" % (kind, cfg["bus"] != "wishbone", dwm, cfg["bus_dw"], depth, base + 4 * k),
+                    rec["lean"].append(("slavecell %s %s %d %d %d %d %d %d" % (mkind, kind, cfg["bus"] != "wishbone", dwm, cfg["bus_dw"],
+                                                                                cfg.get("bus_aw", 32), depth, base + 4 * k),
                                         "%d %d" % (changed[0], lanes[0])))
             written[k] = v
             count("window_stores")
@@ -1451,7 +1514,7 @@ def check_soc(cfg, seed=0, max_regs=None, max_words=None):
             alarm("user slave %s asked at 0x%x size 0x%x is published as mem.h %r json %r" % (u["name"], u["origin"], u["size"], pubm, pub.get(u["name"])))
             continue
         kind = {"wishbone": "wbword" if u.get("addressing", "word") == "word" else "wbbyte", "axi-lite": "axil", "axi": "axil"}[u["std"]]
-        walk_window(u["name"], kind, pubm[0], pubm[1], mem, dws, "w" in u.get("mode", "rw"), uslave_init(u, dws)[1], u.get("budget", 40))
+        walk_window(u["name"], kind, pubm[0], pubm[1], mem, dws, "w" in u.get("mode", "rw"), uslave_init(u, dws)[1], u.get("budget", 18))
         count("user_slaves")
         count("uslave.%s_on_%s" % (u["std"] + ("-" + u.get("addressing", "word") if u["std"] == "wishbone" else ""), cfg["bus"]))
     for rc in cfg.get("rams", []):
@@ -1459,7 +1522,7 @@ def check_soc(cfg, seed=0, max_regs=None, max_words=None):
             pass
         base, psize = ex.mem_header[rc["name"].upper()]
         walk_window(rc["name"], "wbword" if cfg["bus"] == "wishbone" else "axil", base, psize, b.rams[rc["name"]].mem, cfg["bus_dw"],
-                    "w" in rc.get("mode", "rwx"), None, 12)
+                    "w" in rc.get("mode", "rwx"), None, 5)
     st["cycles"] = tb.cycles
     return rec
 
@@ -1678,9 +1741,12 @@ def mem_image_case(rng, tmpdir):
         f.write(data)
     offset = rng.choice((0, 0, 0x100, 0x40000000))
     k = rng.choice((0, 0, 0, 1, 3))
-    base = offset + k * 4 * q
-    mem_size = rng.choice((None, None, n + k * 4 * q + rng.randint(1, 9), 4096))
-    src = fn if k == 0 and rng.random() < 0.7 else {fn: "%08x" % base}
+    # a region base that is not a multiple of the memory word (4-byte aligned ones on 64/128-bit memories included)
+    r_ = rng.choice([x for x in range(1, 4 * q)] + [4 * x for x in range(1, q)]) if rng.random() < 0.12 else 0
+    kb = k * 4 * q + r_
+    base = offset + kb
+    mem_size = rng.choice((None, None, n + kb + rng.randint(1, 9), 4096))
+    src = fn if kb == 0 and rng.random() < 0.7 else {fn: "%08x" % base}
     if isinstance(src, dict) and rng.random() < 0.4:
         # the user-facing form: a .json file naming the binary and its base (get_mem_regions)
         jf = fn + ".json"
@@ -1690,11 +1756,11 @@ def mem_image_case(rng, tmpdir):
     alarm = None
     if mem_size is not None and rng.random() < 0.3:
         # a file that does not fit must be refused, never silently truncated or wrapped
-        small = rng.randint(1, n + k * 4 * q - 1) if n + k * 4 * q > 1 else None
+        small = rng.randint(1, n + kb - 1) if n + kb > 1 else None
         if small is not None:
             try:
                 get_mem_data(src, data_width=32 * q, endianness="big" if big else "little", mem_size=small, offset=offset)
-                alarm = "a %d-byte image was accepted for a memory of %d bytes" % (n + k * 4 * q, small)
+                alarm = "a %d-byte image was accepted for a memory of %d bytes" % (n + kb, small)
             except AssertionError:
                 pass
     img = get_mem_data(src, data_width=32 * q, endianness="big" if big else "little", mem_size=mem_size, offset=offset)
@@ -1702,20 +1768,26 @@ def mem_image_case(rng, tmpdir):
     if isinstance(src, str) and src.endswith(".json"):
         os.unlink(src)
     total = 4 * q * len(img)
+    tag = None
     for a in range(total):
-        want = data[a - k * 4 * q] if k * 4 * q <= a < k * 4 * q + n else 0
+        want = data[a - kb] if kb <= a < kb + n else 0
         if alarm is None and ref_image_byte(img, q, big, a) != want:
-            alarm = "byte address %d of the image reads 0x%02x, file byte is 0x%02x" % (a, ref_image_byte(img, q, big, a), want)
+            alarm = "%d-byte file placed at byte offset %d of a %d-bit %s-endian memory: byte address %d of the image reads 0x%02x, file byte %s is 0x%02x" % (
+                n, kb, 32 * q, "big" if big else "little", a, ref_image_byte(img, q, big, a), a - kb if kb <= a < kb + n else "(none)", want)
+            tag = R_UNALIGNED if r_ else None
             break
     if any(w_ >> (32 * q) for w_ in img):
-        alarm = "an image word exceeds %d bits" % (32 * q)
-    if total < k * 4 * q + n or total >= k * 4 * q + n + 4 * q:
-        alarm = "image has %d bytes for %d data bytes at +%d" % (total, n, k * 4 * q)
-    line = "memimage %d %d %d %s" % (big, q, k * 4 * q, " ".join(map(str, data)))
+        alarm, tag = "an image word exceeds %d bits" % (32 * q), None
+    if total < kb + n or total >= kb + n + 4 * q:
+        alarm, tag = "image has %d bytes for %d data bytes at +%d" % (total, n, kb), None
+    line = "memimage %d %d %d %s" % (big, q, kb, " ".join(map(str, data)))
     real = " ".join(map(str, img))
     line2 = "imagebytes %d %d %d %s" % (big, q, total, real)
-    want2 = " ".join(str(data[a - k * 4 * q] if k * 4 * q <= a < k * 4 * q + n else 0) for a in range(total))
-    return {"line": line, "real": real, "alarm": alarm, "line2": line2, "real2": want2,
+    if r_:
+        want2 = " ".join(str(ref_image_byte(img, q, big, a)) for a in range(total))   # placement is the finding; the lane model is still tied
+    else:
+        want2 = " ".join(str(data[a - kb] if kb <= a < kb + n else 0) for a in range(total))
+    return {"line": line, "real": real, "alarm": alarm, "tag": tag, "line2": line2, "real2": want2,
             "input": {"kind": "memimage", "bytes": list(data), "q": q, "big": big, "offset": offset, "base": base,
                       "mem_size": mem_size}}
 
@@ -2132,6 +2204,23 @@ def irq_case(args):
                 if sorted(hits["s"]) != [name]:
                     alarms.append("load @0x%x of published region %s addresses slaves %s" % (a, name, sorted(hits["s"])))
             stats["regions"] = stats.get("regions", 0) + 1
+    # linker view of this CPU SoC: regions.ld / memory.x MEMORY block = the bus regions, `_stext` = the CPU's reset address
+    # inside a published region, output_format.ld = the CPU's format
+    ld, mx = export.get_linker_regions(soc.mem_regions), export.get_memory_x(soc)
+    for name, region in soc.bus.regions.items():
+        want_ = "\t%s : ORIGIN = 0x%08x, LENGTH = 0x%08x\n" % (name, region.origin, region.size)
+        if ld.count(want_) != 1 or mx.count(want_) != 1:
+            alarms.append("linker files (regions.ld / memory.x): region %s is not listed exactly once as (0x%x, 0x%x)" % (name, region.origin, region.size))
+    if len(re.findall(r"ORIGIN = ", ld)) != len(soc.mem_regions):
+        alarms.append("regions.ld lists %d regions, the SoC has %d" % (len(re.findall(r"ORIGIN = ", ld)), len(soc.mem_regions)))
+    ms_ = re.search(r"_stext = (0x[0-9a-f]+);", mx)
+    ra_ = getattr(soc.cpu, "reset_address", None)
+    if ms_ is None or ra_ is None or int(ms_.group(1), 16) != ra_ or not any(
+            m_["base"] <= ra_ < m_["base"] + m_["size"] for m_ in mems.values()):
+        alarms.append("memory.x _stext %r, CPU reset address %r, published regions %r" % (ms_ and ms_.group(1), ra_, mems))
+    if export.get_linker_output_format(soc.cpu) != 'OUTPUT_FORMAT("%s")\n' % stub.linker_output_format:
+        alarms.append("output_format.ld: %r" % export.get_linker_output_format(soc.cpu))
+    stats["linker_regions"] = len(soc.bus.regions)
     # the model call: b-c13's LocH run on the same requests, then the export / wiring functions of C14
     mods = [n_ for n_ in irqs if n_ not in stub.own_interrupts]
     line = "irq 32 ; O %s ; M %s ; %s ; %s" % (" ".join(str(nid(n_)) for n_ in stub.own_interrupts), " ".join(str(nid(n_)) for n_ in mods),
@@ -2148,6 +2237,103 @@ def irq_case(args):
             "lines": " | ".join(sp([str(k_) for k_ in raised.get(n_, [])]) for n_ in names),
             "wired": {nid(n_): raised.get(n_) for n_ in names}}
     return {"alarms": alarms, "stats": stats, "irqs": irqs, "line": line, "real": real, "input": {"kind": "irq", "seed": seed}}
+
+
+# ------------------------------------------------------------------------------------------------------------
+# `SoCBusHandler.add_adapter` on its own: one interface behind the real adapters, addresses driven on one side and observed
+# on the other (ties `convS2M/convM2S/axil2wb/wb2axil/chainWord/masterBus`)
+
+def adapter_case(args):
+    seed, = args
+    rng = random.Random(seed)
+    from litex.soc.integration.soc import SoCBusHandler
+    import io, contextlib
+    std = rng.choice(("wishbone", "axi-lite"))
+    dw = rng.choice((32, 64, 32))
+    aw = 32
+    sh = (dw // 8).bit_length() - 1
+    direction = rng.choice(("m2s", "s2m"))
+    ikind = rng.choice(("wbword", "wbbyte", "axil"))
+    envshim.quiet_stderr()
+    with contextlib.redirect_stdout(io.StringIO()):
+        h = SoCBusHandler(standard=std, data_width=dw, address_width=aw)
+        if ikind == "axil":
+            itf = axi.AXILiteInterface(data_width=dw, address_width=aw)
+        else:
+            itf = wishbone.Interface(data_width=dw, address_width=aw, addressing=ikind[2:])
+        adapted = h.add_adapter("x", itf, direction)
+    envshim.quiet_stderr()
+    nl = Netlist(h)
+    src, dst = (itf, adapted) if direction == "m2s" else (adapted, itf)
+
+    def is_wb(x):
+        return hasattr(x, "cyc")
+    for x in (src, dst):
+        if is_wb(x):
+            for s_ in (x.cyc, x.stb, x.we, x.adr, x.sel):
+                nl.set(s_, 0)
+            if x is dst:
+                nl.set(x.ack, 0)
+        else:
+            for ch in (x.aw, x.w, x.ar):
+                nl.set(ch.valid, 0)
+    nl.settle()
+    nl.tick()
+    snap = nl.snapshot()
+    busbyte = std != "wishbone"
+    lines, alarms = [], []
+    addrs = [0, 4, 1 << sh, (1 << sh) + 1, 0x30000004, 0x3000000c, 0xfffffffc] + [rng.getrandbits(32) for _ in range(10)]
+    for A in addrs:
+        for we in ((0, 1) if not is_wb(src) else (0,)):
+            nl.restore(snap)
+            if is_wb(src):
+                nl.set(src.adr, A >> sh if src.addressing == "word" else A)
+                nl.set(src.sel, (1 << (dw // 8)) - 1)
+                nl.set(src.cyc, 1)
+                nl.set(src.stb, 1)
+            elif we:
+                nl.set(src.aw.addr, A); nl.set(src.aw.valid, 1); nl.set(src.w.valid, 1); nl.set(src.w.strb, (1 << (dw // 8)) - 1)
+            else:
+                nl.set(src.ar.addr, A); nl.set(src.ar.valid, 1)
+            nl.settle()
+            seen = None
+            for _ in range(8):
+                if is_wb(dst):
+                    if nl.get(dst.cyc) and nl.get(dst.stb):
+                        seen = nl.getu(dst.adr)
+                elif nl.get(dst.ar.valid):
+                    seen = nl.getu(dst.ar.addr)
+                elif nl.get(dst.aw.valid):
+                    seen = nl.getu(dst.aw.addr)
+                if seen is not None:
+                    break
+                nl.tick()
+            what = "%s %s interface (%d bit) behind add_adapter(%s) of a %s bus, access at byte address 0x%x" % (
+                ikind, "master" if direction == "m2s" else "slave", dw, direction, std, A)
+            if seen is None:
+                alarms.append(what + ": no request appears on the far side")
+                continue
+            word_dst = seen if (is_wb(dst) and dst.addressing == "word") else seen >> sh
+            if word_dst != A >> sh:
+                alarms.append(what + ": the far side is addressed with %s 0x%x = bus word 0x%x, expected bus word 0x%x" % (
+                    "adr" if is_wb(dst) else "addr", seen, word_dst, A >> sh))
+            if direction == "s2m":
+                lines.append(("chainword %s %d %d %d %d" % (ikind, busbyte, sh, aw, A), str(word_dst)))
+            else:
+                byte_dst = seen << sh if (is_wb(dst) and dst.addressing == "word") else seen
+                lines.append(("masterbus %s %d %d %d %d" % (ikind, busbyte, sh, aw, A), str(byte_dst)))
+            # the pure addressing step (wishbone interface, wishbone bus of the other addressing) literally
+            if is_wb(src) and is_wb(dst) and src.addressing != dst.addressing:
+                lines.append(("adrconv %s %d %d %d %d %d" % (direction, itf.addressing == "word", std == "wishbone", sh, len(dst.adr),
+                                                          nl.getu(src.adr)), str(seen)))
+    return {"lines": lines, "alarms": alarms, "stats": {"addresses": len(addrs)},
+            "input": {"kind": "adapter", "seed": seed, "std": std, "dw": dw, "direction": direction, "interface": ikind}}
+
+
+def adapter_task(args):
+    r = guarded(adapter_case, "adapter")(args)
+    r.setdefault("lines", [])
+    return r
 
 
 def sweep_task(args):
